@@ -29,6 +29,11 @@ pub struct C15Plan {
     pub eintr: Vec<(usize, u64)>,
     /// Extra calls after the last picture.
     pub extra_calls: usize,
+    /// Which decoder (0 or 1) takes picture i; empty = one decoder.  Two decoders
+    /// taking turns on ONE reader is legal use of the API: the reader must be left
+    /// at the end of each picture whoever decodes the next one.
+    #[serde(default)]
+    pub assign: Vec<u8>,
 }
 
 fn viol(class: &str, detail: String) -> Option<Violation> {
@@ -44,14 +49,21 @@ pub fn exec_c15(plan: &C15Plan, st: &mut Stats) -> Option<Violation> {
         ends.push(concat.len());
     }
     let mut a = Slot::new(plan.opts);
+    let mut a2 = h263_rs::H263State::new(opts_from_bits(plan.opts));
     let mut b = Slot::new(plan.opts);
+    let mut b2 = Slot::new(plan.opts);
+    let who = |i: usize| plan.assign.get(i).copied().unwrap_or(0) & 1;
+    if plan.assign.iter().any(|d| *d == 1) {
+        st.inc("probe.two_decoders_on_one_reader");
+    }
     let mut delivered = 0usize;
     for i in 0..n {
         st.add("steps", 1);
-        // twin B: its own reader
-        b.new_reader();
-        b.feed(&plan.pics[i].bytes);
-        let ob = b.decode();
+        // twin B: its own reader (and the decoder this picture is assigned to)
+        let tb = if who(i) == 0 { &mut b } else { &mut b2 };
+        tb.new_reader();
+        tb.feed(&plan.pics[i].bytes);
+        let ob = tb.decode();
         if let Outcome::Panic(_) = &ob {
             st.inc("panic_not_judged_here"); // the picture crashes even in its own reader: C01's verdict
             return None;
@@ -68,7 +80,7 @@ pub fn exec_c15(plan: &C15Plan, st: &mut Stats) -> Option<Violation> {
                 a.arm(*k, SrcFault::Eintr);
             }
         }
-        let oa = a.decode();
+        let oa = if who(i) == 0 { a.decode() } else { a.decode_with(&mut a2) };
         st.inc("evaluations");
         {
             let mut p = a.pipe.lock().unwrap();
@@ -98,7 +110,7 @@ pub fn exec_c15(plan: &C15Plan, st: &mut Stats) -> Option<Violation> {
                 format!("{}: stream gives {}, own reader gives {}", what(), oa.short(), ob.short()),
             );
         }
-        let (sa, sb) = (snap_last(&a.state), snap_last(&b.state));
+        let (sa, sb) = if who(i) == 0 { (snap_last(&a.state), snap_last(&b.state)) } else { (snap_last(&a2), snap_last(&b2.state)) };
         if oa.is_ok() && sa.is_none() {
             return viol("no decoded picture after a successful call", what());
         }
@@ -178,8 +190,16 @@ pub fn gen_c15(rng: &mut Rng, tier: Tier) -> C15Plan {
     }
     let mut pics = Vec::new();
     let mut tr = rng.byte();
+    // two decoders taking turns on the one reader, in one stream out of eight
+    let two = !long && rng.chance(1, 8);
+    let assign: Vec<u8> = if two { (0..n).map(|_| rng.below(2) as u8).collect() } else { vec![] };
+    let mut has_ref2 = [false, false];
     let mut has_ref = false;
-    for _ in 0..n {
+    for k in 0..n {
+        let d = assign.get(k).copied().unwrap_or(0) as usize;
+        if two {
+            has_ref = has_ref2[d];
+        }
         tr = tr.wrapping_add(1);
         let mut ptype = if !has_ref || rng.chance(1, 4) {
             PType::I
@@ -188,7 +208,7 @@ pub fn gen_c15(rng: &mut Rng, tier: Tier) -> C15Plan {
         } else {
             PType::P
         };
-        if has_ref && cfg.is_sorenson() && rng.chance(1, 8) {
+        if !two && has_ref && cfg.is_sorenson() && rng.chance(1, 8) {
             // size change: only valid at an intra picture (Sorenson; standard mode answers
             // a format change with "unimplemented")
             let (nw, nh) = gen_size(rng, class);
@@ -202,6 +222,7 @@ pub fn gen_c15(rng: &mut Rng, tier: Tier) -> C15Plan {
         let s = gen_picture(rng, &cfg, flq, ptype, w, h, tr);
         if ptype != PType::Disposable {
             has_ref = true;
+            has_ref2[d] = true;
         }
         pics.push(PlanPic::from_spec(s, vec![], "valid").0);
     }
@@ -231,6 +252,7 @@ pub fn gen_c15(rng: &mut Rng, tier: Tier) -> C15Plan {
         chunk,
         eintr,
         extra_calls: 1 + rng.usize(2),
+        assign,
     }
 }
 
@@ -258,6 +280,9 @@ impl Property for C15 {
         for k in (1..plan.pics.len()).rev() {
             let mut c = plan.clone();
             c.pics.remove(k);
+            if k < c.assign.len() {
+                c.assign.remove(k);
+            }
             c.delivered_before_call = vec![];
             c.eintr.clear();
             out.push(c);
@@ -321,6 +346,7 @@ impl Property for C15 {
             "boundary_P_to_I",
             "next_picture_of_another_size",
             "call_after_last_picture_reports_end_of_data",
+            "two_decoders_on_one_reader",
         ]
     }
 }
